@@ -91,8 +91,7 @@ def run_case(desc):
     if wrap == "iet":
         call = multiannot.build_iet_call(desc, rng)
     else:
-        c = poolcase.build(dict(desc, cmode="none" if wrap == "saw" else None))
-        why = poolcase.domain(c)
+        c, why = poolcase.build_in_domain(dict(desc, cmode="none" if wrap == "saw" else None))
         if why:
             return {"status": "skip", "skip_reason": why}
         if wrap == "par" and c.cmode == "idx_any":
